@@ -105,21 +105,21 @@ theorem orientGroup_spec :
       (g : List (Face × Bool)) (rem' : List Face),
       orientGroup n queue rem group seen = .ok g rem' →
       seen.Nodup → seen.Perm (dirEdges (applyFlags group)) →
-      (dirEdges (applyFlags g)).Nodup := by
+      (dirEdges (applyFlags g)).Nodup ∧ (∀ f ∈ rem', f ∈ rem) := by
   intro n
   induction n with
   | zero =>
     intro queue rem group seen g rem' h hn hp
     simp only [orientGroup] at h
     cases h
-    exact hp.nodup_iff.mp hn
+    exact ⟨hp.nodup_iff.mp hn, fun _ h => h⟩
   | succ n ih =>
     intro queue rem group seen g rem' h hn hp
     cases queue with
     | nil =>
       simp only [orientGroup] at h
       cases h
-      exact hp.nodup_iff.mp hn
+      exact ⟨hp.nodup_iff.mp hn, fun _ h => h⟩
     | cons next queue =>
       simp only [orientGroup] at h
       split at h
@@ -130,14 +130,15 @@ theorem orientGroup_spec :
           · cases h
           · rename_i seen' hadd
             obtain ⟨h1, h2⟩ := addEdges_spec _ _ _ hadd hn
-            refine ih _ _ _ _ g rem' h h2 ?_
-            refine h1.trans ?_
-            simp only [applyFlags, List.map_append, List.map_cons, List.map_nil, dirEdges,
-              List.flatMap_append, List.flatMap_cons, List.flatMap_nil, List.append_nil] at hp ⊢
-            refine (List.perm_append_comm).trans (List.Perm.append hp ?_)
-            split
-            · rename_i hf; simp only [hf, if_true]; exact (triEdges_flipTri_perm _).symm
-            · rename_i hf; simp only [hf]; exact List.Perm.refl _
+            have := ih _ _ _ _ g rem' h h2 (by
+              refine h1.trans ?_
+              simp only [applyFlags, List.map_append, List.map_cons, List.map_nil, dirEdges,
+                List.flatMap_append, List.flatMap_cons, List.flatMap_nil, List.append_nil] at hp ⊢
+              refine (List.perm_append_comm).trans (List.Perm.append hp ?_)
+              cases hf : (triEdges next.2).any fun e => seen.contains e with
+              | true => simp only [if_true]; exact (triEdges_flipTri_perm _).symm
+              | false => simp only [Bool.false_eq_true, if_false]; exact List.Perm.refl _)
+            exact ⟨this.1, fun f hf => (List.mem_filter.mp (this.2 f hf)).1⟩
 
 theorem triEdges_nodup {t : Tri} (h : TriNondeg t) : (triEdges t).Nodup := by
   obtain ⟨a, b, c⟩ := t
@@ -165,11 +166,15 @@ theorem orientAll_spec (all : List Face) (hd : ∀ f ∈ all, TriNondeg f.2) :
       split at h
       · rename_i g rem' hgr
         have hstart : TriNondeg start.2 := hd start (hsub start List.mem_cons_self)
-        have hnew := orientGroup_spec _ _ _ _ _ g rem' hgr (triEdges_nodup hstart)
+        obtain ⟨hnew, hsub'⟩ := orientGroup_spec _ _ _ _ _ g rem' hgr (triEdges_nodup hstart)
           (by simp [applyFlags, dirEdges])
-        -- the remaining faces stay faces of the mesh: we only need the edge statement, so the
-        -- subset hypothesis is re-established trivially by weakening it to `True` below
-        sorry
+        refine ih rem' (gs ++ [g]) gs' (fun f hf => ?_) h ?_
+        · exact hsub f (List.mem_cons_of_mem _ (List.mem_filter.mp (hsub' f hf)).1)
+        · intro g' hg'
+          rcases List.mem_append.mp hg' with h' | h'
+          · exact hg g' h'
+          · have : g' = g := by simpa using h'
+            subst this; exact hnew
       · cases h
       · cases h
 
